@@ -313,6 +313,18 @@ func init() {
 			runRD(c, "RD", cfg, fs, "-", c.randChunkSpec(len(w)), "eof", bufSpecs[i%len(bufSpecs)])
 			runRM(c, "RM", 1, fs, "-", c.randChunkSpec(len(w)), "eof")
 			runRX(c, "RX", 1, []string{"data", "text", "binary"}[i%3], fs, "-", c.randChunkSpec(len(w)), "eof")
+			// idle (0, nil) reads between the LAST byte and the end of the stream (and right before it): io.ReadFull
+			// has read n = 0 bytes when the end comes, so the loop ends with a clean io.EOF
+			side := byte(1 + i%2)
+			gs := c.randValidStream(side, 1+c.rng.Intn(5), 120)
+			gw := wireOf(gs)
+			trail := []string{fmt.Sprintf("%d,z,z", len(gw)), fmt.Sprintf("%d,z,1,z,z,z", len(gw)-1), fmt.Sprintf("z,%d,z", len(gw)+5)}[i%3]
+			runRD(c, "RD", rcfg{state: side, cb: 1, chk: i%2 == 0}, gs, "-", trail, "eof", bufSpecs[i%len(bufSpecs)])
+			runRM(c, "RM", side, gs, "-", trail, "eof")
+			if len(gw) > 3 { // and when the stream is cut: idle reads, then the end
+				cut := 1 + c.rng.Intn(len(gw)-1)
+				runRD(c, "RC", rcfg{state: side, cb: 1, chk: true}, gs, fmt.Sprint(cut), fmt.Sprintf("%d,z,z", cut), []string{"eof", "fail"}[i%2], bufSpecs[(i+1)%len(bufSpecs)])
+			}
 		}
 	})
 	// C13 (send side): a message split into more than 256 frames
